@@ -181,6 +181,7 @@ type Machine struct {
 	instrMonLen       int
 	mapOrderNondet    bool
 	twin              bool
+	pools             map[*Object][]value
 	codecUnrecognised int
 	itemStart         time.Time
 	noSummaries       bool
@@ -811,6 +812,7 @@ func (m *Machine) Run(fn *ssa.Function, harness string, params map[string]int) (
 		m.epoch++
 	}()
 	m.paths, m.instrs = 0, 0
+	m.pools = map[*Object][]value{}
 	m.monWrites = m.monWrites[:0]
 	m.codec = nil
 	m.codecUnrecognised = 0
